@@ -35,7 +35,7 @@ def run(ctx):
     acc = {"resumed12": 0, "resumed13": 0, "full": 0, "offered_ticket": 0, "second_name": 0, "late_clock": 0, "rotated_keys": 0,
            "same_as_previous": 0, "no_ems_spec": 0, "hrr": 0, "doc_panic": 0,
            "hrr_cookie_resumed": 0, "build_then_handshake_resumed": 0, "build_edit_handshake_resumed13": 0,
-           "ticket_nonce_resumed": 0, "alpn_negotiated": 0, "resumed12_without_alpn_after_alpn": 0, "built_side_by_side": 0, "one_session_given_to_several": 0}
+           "ticket_nonce_resumed": 0, "sha384_suite_resumed": 0, "other_hash_not_resumed": 0, "alpn_negotiated": 0, "resumed12_without_alpn_after_alpn": 0, "built_side_by_side": 0, "one_session_given_to_several": 0}
     keep = {}       # canary material: accepted connections (scenario, events, k) by kind
     samples = []
     def same(p, cd):
@@ -60,10 +60,12 @@ def run(ctx):
                 acc["resumed13" if ev["c_vers"] == 772 else "resumed12"] += 1
                 acc["hrr_cookie_resumed"] += cd["srv"]["cookie"] > 0 and len(ev["hellos"]) == 2
                 acc["ticket_nonce_resumed"] += cd["srv"]["nonce"] > 0
+                acc["sha384_suite_resumed"] += cd["srv"]["suite13"] == 4866
                 acc["build_then_handshake_resumed"] += cd["use"] == "build"
                 acc["build_edit_handshake_resumed13"] += cd["use"] == "edit" and ev["c_vers"] == 772
             elif ev["hs_ok"]:
                 acc["full"] += 1
+                acc["other_hash_not_resumed"] += k > 1 and cd["srv"]["suite13"] > 0 and ev["before"]["present"] and (ev["before"]["suite"] == 4866) != (cd["srv"]["suite13"] == 4866)
             if ev["before"]["present"] and ev["hs_ok"]:
                 acc["offered_ticket"] += 1
             acc["second_name"] += cd["name"] != "a.example"
@@ -152,7 +154,7 @@ def run(ctx):
             sc.first_failure(row["ev"])),
             {"scenario": s, "why": why, "k": row["k"]})
     cov = {"evaluations": n, "distinct_nontrivial": len(scns),
-           "rule": "every history of 3 connections over one ClientSessionCache that Session_MC enumerates: parrots {ticket-only, PSK with/without OmitEmptyPsk, no session extension, TLS 1.2 EMS parrot, the same spec minus extended_master_secret, PSK without ticket extension, custom ticket-only without PreferSkip%s} x servers {TLS 1.2, TLS 1.3, TLS 1.3 + HelloRetryRequest, + HRR cookie of 1 / 32 bytes, TLS 1.3 tickets with a ticket_nonce of 1 / 8 / 32 bytes} x client usage {Handshake, Build+Handshake, Build+SetClientRandom+Handshake} x ticket keys {1,2} x names {a,b} x clock {0, +8 days}; first connection name a/day 0/keys 1, third connection %s; second connections also with a different ALPN offer (none / http/1.1 only; C11: both ConnectionStates agree after every connection); plus histories in which 2-3 connections are built from one cache entry before any handshake, or are given one session through SetSessionTicketExtension (C18: legacy_session_id, random, key shares of any two hellos differ); each connection also runs against an empty cache (control); evaluations = connections judged, distinct = histories" % (
+           "rule": "every history of 3 connections over one ClientSessionCache that Session_MC enumerates: parrots {ticket-only, PSK with/without OmitEmptyPsk, no session extension, TLS 1.2 EMS parrot, the same spec minus extended_master_secret, PSK without ticket extension, custom ticket-only without PreferSkip%s} x servers {TLS 1.2, TLS 1.3, TLS 1.3 + HelloRetryRequest, + HRR cookie of 1 / 32 bytes, TLS 1.3 tickets with a ticket_nonce of 1 / 8 / 32 bytes, TLS 1.3 server selecting suite 1301 / 1302 / 1303} x client usage {Handshake, Build+Handshake, Build+SetClientRandom+Handshake} x ticket keys {1,2} x names {a,b} x clock {0, +8 days}; first connection name a/day 0/keys 1, third connection %s; second connections also with a different ALPN offer (none / http/1.1 only; C11: both ConnectionStates agree after every connection); plus histories in which 2-3 connections are built from one cache entry before any handshake, or are given one session through SetSessionTicketExtension (C18: legacy_session_id, random, key shares of any two hellos differ); each connection also runs against an empty cache (control); evaluations = connections judged, distinct = histories" % (
                ", more PSK/PQ/Firefox/360 parrots" if deep else "", "over the parrots/servers/names of the first two" if deep else "repeats the second or the first"),
            "accepted": acc, "model_level_counterexamples_as_coded": len(mviol), "canaries": [w for w, _, _ in canaries], "samples": samples, "exhaustive": True}
     return "model_checking", cov, ["Go tls.Server of the same repository acts as the compliant server",
